@@ -99,11 +99,19 @@ def _decode_calls(fields):
     return calls
 
 
+def _ptr(decoder):
+    """the decoder's read position if it exposes one (private attribute; -1 = not observable: clause Pointer is then not judged)"""
+    try:
+        return int(getattr(decoder, "_pointer"))
+    except Exception:  # noqa: BLE001
+        return -1
+
+
 def _decode_all(decoder, via, calls, events):
     for t, size in calls:
         ev = {"op": "dec", "via": via, "type": t, "size": size, "got": [], "ptr_before": -1, "ptr_after": -1, "err": ""}
         try:
-            ev["ptr_before"] = int(decoder._pointer)
+            ev["ptr_before"] = _ptr(decoder)
             if t in FIXED:
                 v = getattr(decoder, FIXED[t][2])()
             elif t == "str":
@@ -114,10 +122,7 @@ def _decode_all(decoder, via, calls, events):
         except Exception as e:  # noqa: BLE001
             ev["got"] = []
             ev["err"] = type(e).__name__
-        try:
-            ev["ptr_after"] = int(decoder._pointer)
-        except Exception:  # noqa: BLE001
-            ev["ptr_after"] = -1
+        ev["ptr_after"] = _ptr(decoder)
         events.append(ev)
 
 
